@@ -32,6 +32,9 @@ func vh08Corpus() [][]vhsOp {
 			wk(0, 1, 10, 1, 0), o("getattr", 0, 10), o("renameat", 0, 0, 0, 0, 0), o("renameat", 0, 1, 1, 0, 0)),
 		// refused renames: into itself / a descendant, over an ancestor of the source; non-existing source
 		cat(deep, o("renameat", 0, 0, 0, 2, 0), o("renameat", 0, 0, 0, 3, 3), o("renameat", 0, 3, 3, 0, 0), o("renameat", 0, 0, 3, 0, 2), o("rename", 0, 1, 3, 0)),
+		// an xattr fid cannot be cloned (EINVAL, no backend call, nothing bound); it follows renames through its origin
+		{at(0, 0), o("mk", 0, 0, 0, 1), wk(0, 0, 1, 1), o("xattrwalk", 0, 1, 2), wk(0, 2, 3), o("getattr", 0, 3), vhsOp{K: "walk", A: []int{0, 2, 3}, G: true},
+			o("renameat", 0, 0, 1, 0, 2), o("getattr", 0, 1), o("getattr", 0, 2), o("getattr", 0, 3), wk(0, 2, 2), o("getattr", 0, 2)},
 		// two connections: one renames what the other holds; the other disconnects; remove by Tremove uses the current name
 		cat(deep, at(1, 0), wk(1, 0, 1, 0, 1, 2, 3), wk(1, 0, 2, 0, 1), o("renameat", 0, 1, 1, 0, 3), o("getattr", 1, 1), o("remove", 1, 1), o("getattr", 0, 4), o("stop", 1), o("renameat", 0, 0, 3, 1, 1)),
 	}
@@ -48,15 +51,6 @@ func TestVerifC08(t *testing.T) {
 			out.Emit(vhsReplay("c08", ops, wga, nil, true, -1, 0, false))
 			out.Emit(vhsReplay("c08", ops, wga, nil, true, -1, 0, true))
 		}
-	}
-	// known finding (fixes/C08-xattr-clone-unregistered.md): the clone of an xattr fid is not in the path tree
-	{
-		at := func(c, f int, names ...int) vhsOp { return vhsOp{K: "attach", A: []int{c, f}, Names: names} }
-		wk := func(c, f, nf int, names ...int) vhsOp { return vhsOp{K: "walk", A: []int{c, f, nf}, Names: names} }
-		o := func(k string, a ...int) vhsOp { return vhsOp{K: k, A: a} }
-		ops := []vhsOp{at(0, 0), o("mk", 0, 0, 0, 1), wk(0, 0, 1, 1), o("xattrwalk", 0, 1, 2), wk(0, 2, 3), o("getattr", 0, 3),
-			o("renameat", 0, 0, 1, 0, 2), o("getattr", 0, 1), o("getattr", 0, 2), o("getattr", 0, 3)}
-		out.Emit(vhsReplay("c08-xattr-clone", ops, true, nil, false, -1, 0, true))
 	}
 	nhist := 100
 	if thorough {
